@@ -87,3 +87,20 @@ def replay_unconfigured(msg, enc, hexbm, cfg):
     if d.get('DE2') != msg['DE2'] or d.get('DE3') != msg['DE3']:
         return True, 'configured elements changed', 'C02/unconfigured'
     return False, 'ok', None
+
+
+def replay_pds_overflow(msg, enc, cfg):
+    from cardutil import iso8583
+    cfgs = _cfg(cfg)
+    try:
+        got = iso8583.dumps(dict(msg), encoding=enc, iso_config=cfgs if isinstance(cfg, dict) else None)
+    except Exception as e:
+        return False, 'refused (%s)' % type(e).__name__, None
+    try:
+        d, _ = ref.ref_decode(got, cfgs, enc, False)
+    except ref.RefError as e:
+        return True, 'returned a malformed message: %s' % e, 'C02/pds-overflow'
+    lost = [k for k in msg if k.startswith('PDS') and d.get(k) != msg[k]]
+    if lost:
+        return True, 'returned a message from which %s is missing' % lost, 'C02/pds-overflow'
+    return False, 'ok', None
